@@ -25,6 +25,18 @@ func c14Route(v int) *rux.Route {
 var c14Keys = []string{"a", "b", "c", "GET/u/1", "GET/u/2", "POST/u/1", "", "é", "a/b"}
 
 func c14Gen(r *Rng, tier string, i int) Sx {
+	if i%300 == 299 { // a large cache filled past its capacity, in order: the oldest keys go, one by one
+		cap := r.Pick2([]int{100, 255, 256, 1000})
+		var ops []Sx
+		for k := 0; k < cap+20; k++ {
+			ops = append(ops, L(A("s"), S(fmt.Sprintf("GET/k/%d", k)), I(k%50)))
+			if k%97 == 5 {
+				ops = append(ops, L(A("g"), S(fmt.Sprintf("GET/k/%d", k/2))))
+			}
+		}
+		ops = append(ops, L(A("l")), L(A("h"), S("GET/k/0")), L(A("h"), S(fmt.Sprintf("GET/k/%d", cap+19))), L(A("g"), S("GET/k/21")))
+		return L(A("c14"), I(cap), LS(ops))
+	}
 	cap := r.Intn(5)
 	if r.Chance(1, 20) {
 		cap = r.Range(5, 9)
